@@ -5,6 +5,7 @@ import CanVerif.Model.DbcStart
 import CanVerif.Model.DbcStmt
 import CanVerif.Model.DbcAttr
 import CanVerif.Model.DbcComment
+import CanVerif.Model.DbcTables
 open Lean CanVerif CanVerif.Dbc
 
 namespace D05
@@ -217,6 +218,32 @@ def handle (op : String) (c i : Json) : Except String (Json × String) := do
     let p := ← J.key i "parsed"
     let verdict := if !wfComment text then "ok"      -- outside the statement's envelope: the whole-file case and the known findings decide
       else if p == Json.str (String.ofList text) then "ok" else "fail: the comment does not come back as written"
+    pure (m, verdict)
+  | "vtab" =>
+    -- c = {"vtab": {"name", "entries": [[key text, text], ...]}}; i = {"line": VAL_TABLE_ line of the file, "parsed": the same as read}
+    let vj ← J.key c "vtab"
+    let es ← (← J.arr (← J.key vj "entries")).mapM fun e => do pure ((← J.str (← J.idx e 0)).toList, (← J.str (← J.idx e 1)).toList)
+    let v : VtLine := { name := (← J.str (← J.key vj "name")).toList, entries := es }
+    let line ← J.str (← J.key i "line")
+    let vtJ (q : VtLine) : Json := J.obj [("name", .str (String.ofList q.name)),
+      ("entries", J.ofList (q.entries.map fun (k, t) => J.ofList [.str (String.ofList k), .str (String.ofList t)]))]
+    let m := J.obj [("line", .str (String.ofList (renderVt v))), ("parsed", optJ vtJ (parseVt (stripWs line.toList)))]
+    let p := ← J.key i "parsed"
+    let verdict := if J.isNull p then "fail: the reader did not accept the VAL_TABLE_ line the writer produced"
+      else if p == vtJ v then "ok" else "fail: the VAL_TABLE_ line reads back as another table"
+    pure (m, verdict)
+  | "grp" =>
+    -- c = {"grp": {"frame", "name", "id", "members"}}; i = {"line": SIG_GROUP_ line, "parsed": the same as read}
+    let gj ← J.key c "grp"
+    let g : GroupLine := { frameId := ← J.nat (← J.key gj "frame"), name := (← J.str (← J.key gj "name")).toList, groupId := ← J.nat (← J.key gj "id"),
+                           members := (← J.strList (← J.key gj "members")).map String.toList }
+    let line ← J.str (← J.key i "line")
+    let gJ (q : GroupLine) : Json := J.obj [("frame", J.ofNat q.frameId), ("name", .str (String.ofList q.name)), ("id", J.ofNat q.groupId),
+      ("members", J.ofStrList (q.members.map String.ofList))]
+    let m := J.obj [("line", .str (String.ofList (renderGroup g))), ("parsed", optJ gJ (parseGroup (stripWs line.toList)))]
+    let p := ← J.key i "parsed"
+    let verdict := if J.isNull p then "fail: the reader did not accept the SIG_GROUP_ line the writer produced"
+      else if p == gJ g then "ok" else "fail: the SIG_GROUP_ line reads back as another group"
     pure (m, verdict)
   | "file" =>
     let bs ← (← J.arr (← J.key c "blocks")).mapM blockOf
